@@ -246,6 +246,9 @@ class Engine:
             return st.heap[v.loc]
         if isinstance(v, FieldRef):
             return z3.Select(st.fields.get(v.attr, field0(v.attr)), v.obj)
+        if isinstance(v, ItemRef):
+            cur = self.read(v.owner, st)
+            return lookup(V.ditems(cur), v.key)
         if isinstance(v, PyMapped):
             return v.term
         if z3.is_expr(v):
@@ -1525,6 +1528,9 @@ class Engine:
             return st.put_heap(recv.loc, new_content)
         if isinstance(recv, FieldRef):
             return self.setattr(recv.obj, recv.attr, new_content, st)
+        if isinstance(recv, ItemRef):
+            cur = self.read(recv.owner, st)
+            return self.mutate(recv.owner, st, V.Dict(assoc_set(V.ditems(cur), recv.key, new_content)))
         raise OutOfSubset("mutation of a container not owned by this activation (declare it mutable in the contract)")
 
     # ------------------------------------------------------------------ statements
